@@ -1,0 +1,168 @@
+//go:build verif
+
+package memberlist
+
+// Verification hooks (build tag `verif`) for properties C04/C06: a KV detached from the network.
+// Add-only; thin wrappers over unexported state. The external harness (/verif/harness) plays the
+// role of hashicorp/memberlist: it pulls GetBroadcasts / LocalState from one node and feeds
+// NotifyMsg / MergeRemoteState of another, applying an adversarial schedule in between.
+
+import (
+	"context"
+	"errors"
+	"sort"
+	"time"
+
+	"github.com/go-kit/log"
+	"github.com/hashicorp/memberlist"
+
+	"github.com/grafana/dskit/services"
+)
+
+// VerifNewDetachedKV builds a KV whose broadcast queues exist, whose delegate is ready and whose
+// service reports Running, but without a memberlist instance or TCP transport. numNodes plays the
+// role of memberlist.NumMembers for the retransmit limit of the two TransmitLimitedQueues.
+// The periodic loops of KV.running (rejoin, obsolete-entries ticker, key-notification ticker) are
+// not started: the harness triggers VerifCleanupObsolete / VerifSendKeyNotifications explicitly.
+func VerifNewDetachedKV(cfg KVConfig, numNodes func() int) (*KV, error) {
+	m := NewKV(cfg, log.NewNopLogger(), nil, nil)
+	starting := func(_ context.Context) error {
+		// what KV.starting does after memberlist.Create
+		m.localBroadcasts = &memberlist.TransmitLimitedQueue{NumNodes: numNodes, RetransmitMult: cfg.RetransmitMult}
+		m.gossipBroadcasts = &memberlist.TransmitLimitedQueue{NumNodes: numNodes, RetransmitMult: cfg.RetransmitMult}
+		m.delegateReady.Store(true)
+		return nil
+	}
+	running := func(ctx context.Context) error {
+		<-ctx.Done()
+		return nil
+	}
+	stopping := func(_ error) error {
+		// what KV.stopping does apart from leaving the cluster
+		close(m.shutdown)
+		return nil
+	}
+	m.NamedService = services.NewBasicService(starting, running, stopping).WithName("memberlist_kv_detached")
+	if err := services.StartAndAwaitRunning(context.Background(), m); err != nil {
+		return nil, err
+	}
+	return m, nil
+}
+
+// VerifSetCasRetries overrides the CAS retry budget (the tests do the same through the field).
+func (m *KV) VerifSetCasRetries(n int) { m.maxCasRetries = n }
+
+// verifBarrierCodec is a codec whose Decode signals and fails: pushed through a per-key worker
+// channel it marks the point where every earlier update of that key has been fully processed
+// (merge, watcher notification and re-broadcast), without touching the store.
+type verifBarrierCodec struct{ hit chan struct{} }
+
+func (c verifBarrierCodec) CodecID() string { return "verif-barrier" }
+func (c verifBarrierCodec) Decode([]byte) (interface{}, error) {
+	c.hit <- struct{}{}
+	return nil, errors.New("verif barrier")
+}
+func (c verifBarrierCodec) Encode(interface{}) ([]byte, error) {
+	return nil, errors.New("verif barrier")
+}
+
+// VerifQuiesce returns once every update handed to NotifyMsg before the call has been processed by
+// its per-key worker. Must not run concurrently with VerifCleanupObsolete.
+func (m *KV) VerifQuiesce() {
+	m.workersMu.Lock()
+	keys := make([]string, 0, len(m.workersChannels))
+	for k := range m.workersChannels {
+		keys = append(keys, k)
+	}
+	m.workersMu.Unlock()
+
+	for _, k := range keys {
+		bar := verifBarrierCodec{hit: make(chan struct{}, 1)}
+		for {
+			m.workersMu.Lock()
+			ch, ok := m.workersChannels[k]
+			sent := false
+			if ok {
+				select {
+				case ch <- valueUpdate{value: []byte{0}, codec: bar}:
+					sent = true
+				default:
+				}
+			}
+			m.workersMu.Unlock()
+			if !ok {
+				break // worker deregistered itself: nothing pending for this key
+			}
+			if sent {
+				<-bar.hit
+				break
+			}
+			time.Sleep(50 * time.Microsecond)
+		}
+	}
+}
+
+// VerifEntry is one store entry as kept by the node (tombstones included).
+type VerifEntry struct {
+	Key        string
+	Value      Mergeable // deep copy
+	Version    uint
+	CodecID    string
+	Deleted    bool
+	UpdateTime time.Time
+}
+
+// VerifStoreSnapshot returns a deep copy of the store, sorted by key.
+func (m *KV) VerifStoreSnapshot() []VerifEntry {
+	c := m.storeCopy()
+	out := make([]VerifEntry, 0, len(c))
+	for k, v := range c {
+		out = append(out, VerifEntry{Key: k, Value: v.value, Version: v.Version, CodecID: v.CodecID, Deleted: v.Deleted, UpdateTime: v.UpdateTime})
+	}
+	sort.Slice(out, func(i, j int) bool { return out[i].Key < out[j].Key })
+	return out
+}
+
+// VerifCleanupObsolete is the body of the obsolete-entries ticker of KV.running.
+func (m *KV) VerifCleanupObsolete() { m.cleanupObsoleteEntries() }
+
+// VerifSendKeyNotifications is the body of the key-notification ticker of KV.running (NotifyInterval > 0).
+func (m *KV) VerifSendKeyNotifications() { m.sendKeyNotifications() }
+
+// VerifQueued returns the number of queued broadcasts (local, gossip).
+func (m *KV) VerifQueued() (int, int) {
+	return m.localBroadcasts.NumQueued(), m.gossipBroadcasts.NumQueued()
+}
+
+// VerifNumWatchers returns the number of registered watcher channels (key watchers + prefix watchers).
+func (m *KV) VerifNumWatchers() int {
+	m.watchersMu.Lock()
+	defer m.watchersMu.Unlock()
+	n := 0
+	for _, ws := range m.watchers {
+		n += len(ws)
+	}
+	for _, ws := range m.prefixWatchers {
+		n += len(ws)
+	}
+	return n
+}
+
+// VerifBroadcastInvalidates evaluates ringBroadcast.Invalidates(new, old) on the given descriptors.
+func VerifBroadcastInvalidates(newKey string, newContent []string, newVersion uint, oldKey string, oldContent []string, oldVersion uint) bool {
+	nb := ringBroadcast{key: newKey, content: newContent, version: newVersion}
+	ob := ringBroadcast{key: oldKey, content: oldContent, version: oldVersion}
+	return nb.Invalidates(ob)
+}
+
+// VerifPendingKeyNotifications returns the keys whose watcher notifications are delayed (NotifyInterval > 0).
+func (m *KV) VerifPendingKeyNotifications() []string {
+	m.notifMu.Lock()
+	defer m.notifMu.Unlock()
+	out := make([]string, 0, len(m.keyNotifications))
+	for k := range m.keyNotifications {
+		out = append(out, k)
+	}
+	sort.Strings(out)
+	return out
+}
